@@ -19,4 +19,9 @@ registry! {
     h_graph::h_graph_n3_untraced,
     h_graph::h_graph_n3_s2,
     h_graph::h_graph_twin,
+    h_panic::h_panic_n2,
+    h_panic::h_panic_n3,
+    h_panic::h_panic_n3_hist,
+    h_panic::h_panic_n2_two,
+    h_panic::h_panic_twin,
 }
